@@ -12,6 +12,7 @@ CONSTANTS
   Inter = {TRUE}
   Multis = {FALSE}
   Muts = {0, 1, 2}
+  DefInts = {FALSE}
   RouteIds = {1, 9}
   Reconfs = {0, 2, 3, 4, 5}
   Rounds = 2
